@@ -171,7 +171,28 @@ def aggsender_check(prop, model_cfgs, gen_cfgs, quick_n, thorough_n, invs, claim
                                   dict(fixture=FIXTURE_DB, violation=v))
             persist = dict(fixture="fixtures/aggsender_v1.sqlite", answers_compared=nans, differing=len(pinfo["violations"]))
         steps = sum(len(b["steps"]) for b in behs)
+        # conformance of the implementation-shaped specification: AggSender.tla predicts for every tick of an exported behaviour
+        # whether a certificate goes out; compared with what the scripted Agglayer received (ticks without added faults only)
+        compared = drift = 0
+        dsample = None
+        for x in lines:
+            if '"ev":"tick"' in x.replace(" ", "")[:400] and '"exp"' in x:
+                e = json.loads(x)
+                if not e.get("plain") or not isinstance(e.get("exp"), dict):
+                    continue
+                compared += 1
+                if bool(e.get("sent")) != bool(e["exp"].get("sent")):
+                    drift += 1
+                    dsample = dsample or {k: e.get(k) for k in ("kind", "o", "checkfail", "sent", "exp", "crashed")}
+        conf = dict(ticks_compared=compared, drift=drift, sample=dsample,
+                    meaning="does this tick submit a certificate: the real node against AggSender.tla's own prediction for the same step; "
+                            "the replay adds what the model abstracts (claims whose GER is not finalized yet, idle stretches, L2 reorgs), "
+                            "so some drift is expected - it is information about the specification, never a verdict")
+        if drift:
+            res.notes.append("model drift: %d of %d ticks differ from AggSender.tla's prediction (certificate submitted or not), e.g. %s"
+                             % (drift, compared, json.dumps(dsample)[:300]))
         res.coverage = dict(
+            model_conformance=conf,
             stored_database_upgrade=persist,
             states=sum(m["distinct"] for m in mcs), transitions=sum(m["generated"] for m in mcs),
             traces_validated_against_impl=len(behs), samples=[behs[0], behs[len(behs) // 2], behs[-1]], exhaustive=False,
